@@ -38,15 +38,27 @@ class C10(Prop):
                  "schedule replay on the real cells through yield points 1001-1014")
     level_text = ("Theorems (Coq): for every schedule, any number of updater threads and flush cadence, the deltas handed to the "
                   "writer plus those still in flight plus current-last equal the increments whose fetch_add executed (mod 2^64), "
-                  "and the idle logic drops only zero deltas; once updates stop at most one more zero is sent and then nothing; "
-                  "every gauge flush returns the fold of exactly the writes executed before its load; sequentially: idle-once, "
-                  "absolute conservation without wrap, histogram values each in exactly one flush, timestamp iff Aggressive. "
+                  "and the idle logic drops only zero deltas; with one flushing thread every delta is (mod 2^64) the growth of the "
+                  "added total between the flusher's two most recent current.loads, and all such windows together never exceed what "
+                  "was added; from a quiescent configuration at most one more zero is sent and then nothing; every gauge flush returns "
+                  "the fold of exactly the writes executed before its load; sequentially, for every history of a key: the counter, gauge "
+                  "and histogram clauses of the executable property hold on the model (presence phases = idle-once, increment sums, "
+                  "absolute running-maximum differences without wrap, global bound, each histogram value in exactly one flush), timestamp "
+                  "iff Aggressive; chained with C09's writer theorems: a sequential run never panics and every iteration's payloads are "
+                  "the frames (LE32 len ++ body on a stream) of exactly the bodies its writer calls committed, and the stream decodes to them. "
                   "Tied to /repo by running the same histories and schedules on the real code, plus a free-running stress "
                   "(real threads, no scheduler) judged by the conservation identities.")
     level_note = ("SC interleaving (the code's Relaxed/Acquire/Release orderings are weaker). The registry (key -> cell map) is "
                   "not modelled: keys are independent cells. AtomicBucket/reservoir are a sequential bag (C05/C16 own their "
-                  "concurrency). A first absolute racing a flush is the open finding C10-rebase-straddle. The payload parser of "
-                  "vlib/c10.py is trusted for the spec verdict on outputs that differ from the model.")
+                  "concurrency). NOT proved: (i) the composition forall c, spec_ok c (run_case c) = true - the per-key clauses, the "
+                  "timestamp clause and the framing/no-panic chain are proved separately, what is missing is the plumbing from the "
+                  "assembled message list back to the per-key outputs (filter over msgs_of/flush_calls), the one-line property of "
+                  "rendered bodies, and the scheduled-case clauses on the model (results vs ghost lists); (ii) absolute conservation "
+                  "for concurrent schedules outside the open class C10-rebase-straddle (only sequential: C10_absolute_conservation); "
+                  "(iii) idle-once for all schedules from an arbitrary no-more-updates configuration (proved from quiescent "
+                  "configurations; a non-quiescent one reaches quiescence after the first flush begun afterwards completes - argued, "
+                  "not proved). A first absolute racing a flush or another first absolute is the open finding C10-rebase-straddle. The "
+                  "payload parser of vlib/c10.py is trusted for the spec verdict on outputs that differ from the model.")
     rule = ("60% sequential histories: 1-4 keys (names incl. the telemetry prefix, 0-2 labels, bare tags), all configurations "
             "(mode, distributions, sampling with per-window pushes <= reservoir, prefix, global labels, max payload 128..8192 (every single-value line fits) and "
             ">= 2^32, length prefix), 3-16 ops incl. register-only, u64 extremes, >64 histogram values, 1-5 flushes; 40% schedules: "
